@@ -37,6 +37,7 @@ type Val struct {
 	Nums  []float64
 	Sep   string
 	Xf    []XFn
+	FSep  string // separator between transform functions ("" = one space)
 	D     string // path data text
 	Str   string
 	Words []string
@@ -115,7 +116,11 @@ func (v Val) Text_() string {
 		var sb strings.Builder
 		for i, f := range v.Xf {
 			if i > 0 {
-				sb.WriteByte(' ')
+				if v.FSep != "" {
+					sb.WriteString(v.FSep)
+				} else {
+					sb.WriteByte(' ')
+				}
 			}
 			sb.WriteString(f.Name + "(" + nums(f.Args, f.Sep) + ")")
 		}
@@ -267,8 +272,13 @@ func (v Val) Proto() string {
 		return "N " + hexList(v.Nums)
 	case 'X':
 		s := fmt.Sprintf("X %d", len(v.Xf))
-		for _, f := range v.Xf {
-			s += " " + strings.ToLower(f.Name) + " " + hexList(f.Args)
+		for i, f := range v.Xf {
+			// the name as parseTransform lexes it: the text between ')' and '(' trimmed and lower-cased
+			name := f.Name
+			if i > 0 {
+				name = strings.TrimSpace(v.FSep + name)
+			}
+			s += " " + strings.ReplaceAll(strings.ToLower(name), " ", "?") + " " + hexList(f.Args)
 		}
 		return s
 	case 'P':
@@ -363,6 +373,8 @@ func (n *Node) proto(sb *strings.Builder) {
 							op = 1
 						case '~':
 							op = 2
+						case '|':
+							op = 3
 						}
 						fmt.Fprintf(sb, " %d %s %s", op, tok(a.Attr), tok(a.Val))
 					}
